@@ -41,6 +41,7 @@ def fnvalue(ex, st, fv, pos, kw, node):
                 sq = ex.seq_of(pos[0], s2, node)
                 r = fresh("chosen", Val)
                 s2.assume(Contains(sq, r))
+                s2.assume(smt.index_fact(sq, r))
                 out.append((s2, ex.wrap_elem(r, ex.list_elem_ty(pos[0]), s2)))
         return out
     if attr == "server_priority_function":
